@@ -63,18 +63,18 @@ func (m *module) done(data starlark.StringDict, err error) (starlark.StringDict,
 // to load or if the wait would result in a cyclic dependency.
 func (m *module) wait(waiter *module) (starlark.StringDict, error) {
 	verifYield("mod.wait", m.label.String())
-	m.m.Lock()
-	defer m.m.Unlock()
-
 	if waiter != nil {
-		loading := m.loading
-		for loading != nil {
+		// Walk the chain of modules that are waiting on one another, starting at the
+		// receiver. The walk must not hold m.m: getLoading locks each module in turn.
+		for loading := m; loading != nil; loading = loading.getLoading() {
 			if loading == waiter {
 				return nil, fmt.Errorf("cyclic dependency on %v", m.label)
 			}
-			loading = m.getLoading()
 		}
 	}
+
+	m.m.Lock()
+	defer m.m.Unlock()
 
 	for !m.loaded {
 		m.cond.Wait()
